@@ -82,4 +82,34 @@ CHECKS = {
             {"part": "ticks", "test": "TestTicks", "quick": {"checks": 480, "shards": 12}, "thorough": {"checks": 16000, "shards": 16, "timeout": 3000}},
         ],
     },
+    "C03": {
+        "pkg": "c03",
+        "aux_builds": [{"pkg": "./cmd/vhook", "out": "vhook"}],
+        "technique": "stateful property-based testing (rapid) of the real queue set with handshake-controlled handlers; E2E with gated hook processes",
+        "level_text": "Random action sequences on a real TaskQueueSet + events handler with handshake handlers: mutual exclusion per queue, head-first execution, placement by queue name in arrival order, progress of other queues while one is stalled. Search, not proof.",
+        "level_note": "Trusted: handshake handler (worker is parked in the handler or idle on an empty queue); progress is a bounded eventuality (20 s ceiling).",
+        "parts": [
+            {"part": "queue", "test": "TestQueueSet", "quick": {"checks": 3000, "shards": 8}, "thorough": {"checks": 100000, "shards": 16, "timeout": 3000}},
+        ],
+    },
+    "C17": {
+        "pkg": "c17",
+        "aux_builds": [{"pkg": "./cmd/vhook", "out": "vhook"}],
+        "technique": "stateful property-based testing (rapid): stop request injected at generated points of a queue-set run",
+        "level_text": "Random runs of the real queue set with a stop request at a generated point (idle, in handler, in back-off, tasks still arriving); counts handler starts after the request and checks worker termination. Search, not proof.",
+        "level_note": "Trusted: handshake handler; an idle queue may legitimately pick one task that arrives around the stop request (select race in the wait loop), so <= 1 start is allowed there and 0 elsewhere.",
+        "parts": [
+            {"part": "queue", "test": "TestQueueStop", "quick": {"checks": 1600, "shards": 16}, "thorough": {"checks": 80000, "shards": 16, "timeout": 3000}},
+        ],
+    },
+    "C18": {
+        "pkg": "c18",
+        "aux_builds": [{"pkg": "./cmd/vhook", "out": "vhook"}],
+        "technique": "property-based testing (rapid): limiter built from generated settings driven with synthetic time; E2E burst runs with in-process start timestamps",
+        "level_text": "Random (interval, burst) settings through the real config loader and limiter constructor, sliding-window bound checked on synthetic time for generated arrival patterns. Search, not proof.",
+        "level_note": "Trusted: golang.org/x/time/rate honours ReserveN with caller-supplied time the same way Wait does with real time.",
+        "parts": [
+            {"part": "limiter", "test": "TestLimiter", "quick": {"checks": 5000, "shards": 4}, "thorough": {"checks": 400000, "shards": 16, "timeout": 3000}},
+        ],
+    },
 }
